@@ -82,6 +82,10 @@ type Case struct {
 	Frag        int               `json:"frag,omitempty"` // max bytes per body read
 	EOFWithData bool              `json:"eof_with_data,omitempty"`
 	Muts        []string          `json:"mutations,omitempty"`
+	// Hold: the client keeps its sending side open after the body / script:
+	// reads block until the server closes the body / connection (a client
+	// that waits for the status or the reply before it half-closes)
+	Hold bool `json:"hold,omitempty"`
 	// burst entry: Sub requests are served concurrently by Burst goroutines,
 	// Repeat times each, on the same mux (cross-request interference)
 	Sub       []*Case `json:"sub,omitempty"`
@@ -113,6 +117,9 @@ func (c *Case) request() *http.Request {
 				}
 			}
 			body = sr
+		} else if c.Hold {
+			body = newHoldBody(c.Body)
+			cl = clUnknown
 		} else {
 			body = bytes.NewReader(c.Body)
 		}
@@ -147,6 +154,8 @@ type memConn struct {
 	r      *bytes.Reader
 	w      bytes.Buffer
 	closed bool
+	hold   bool
+	cond   *sync.Cond
 }
 
 type memAddr struct{}
@@ -157,10 +166,46 @@ func (memAddr) String() string  { return "mem" }
 func (c *memConn) Read(p []byte) (int, error) {
 	c.mu.Lock()
 	defer c.mu.Unlock()
+	for c.hold && !c.closed && c.r.Len() == 0 {
+		if c.cond == nil {
+			c.cond = sync.NewCond(&c.mu)
+		}
+		c.cond.Wait() // the client only reads now: nothing more until the server closes
+	}
 	if c.closed {
 		return 0, net.ErrClosed
 	}
 	return c.r.Read(p)
+}
+
+// holdBody is a request body whose Read blocks, once the data is consumed,
+// until the body is closed (an HTTP/2 client that has not half-closed).
+type holdBody struct {
+	mu     sync.Mutex
+	r      *bytes.Reader
+	closed chan struct{}
+	once   sync.Once
+}
+
+func newHoldBody(b []byte) *holdBody {
+	return &holdBody{r: bytes.NewReader(b), closed: make(chan struct{})}
+}
+
+func (h *holdBody) Read(p []byte) (int, error) {
+	h.mu.Lock()
+	if h.r.Len() > 0 {
+		n, _ := h.r.Read(p)
+		h.mu.Unlock()
+		return n, nil
+	}
+	h.mu.Unlock()
+	<-h.closed
+	return 0, fmt.Errorf("request body closed")
+}
+
+func (h *holdBody) Close() error {
+	h.once.Do(func() { close(h.closed) })
+	return nil
 }
 
 func (c *memConn) Write(p []byte) (int, error) {
@@ -178,6 +223,9 @@ func (c *memConn) Write(p []byte) (int, error) {
 func (c *memConn) Close() error {
 	c.mu.Lock()
 	c.closed = true
+	if c.cond != nil {
+		c.cond.Broadcast()
+	}
 	c.mu.Unlock()
 	return nil
 }
@@ -254,7 +302,7 @@ func serveInproc(c *Case, bt *built) *outcome {
 	h := gidHandler{bt.mux, &gid}
 	bt.b.reset()
 	if c.Entry == "ws-mem" {
-		rw := &hijackRW{ResponseRecorder: httptest.NewRecorder(), conn: &memConn{r: bytes.NewReader(c.Body)}}
+		rw := &hijackRW{ResponseRecorder: httptest.NewRecorder(), conn: &memConn{r: bytes.NewReader(c.Body), hold: c.Hold}}
 		cc := *c
 		cc.Body = nil // the script travels on the hijacked connection, not as an HTTP body
 		req := cc.request()
@@ -269,8 +317,12 @@ func serveInproc(c *Case, bt *built) *outcome {
 		o.connOut, o.connShut = rw.conn.out()
 		o.code = rw.Result().StatusCode
 	} else {
-		resp := wire.Serve(h, c.request())
+		req := c.request()
+		resp := wire.Serve(h, req)
 		o.gid = gid.Load()
+		if !resp.Wedged {
+			req.Body.Close() // as net/http does once the handler has returned
+		}
 		if resp.Wedged {
 			o.wedged, o.dump = true, resp.Dump
 			return o
@@ -721,7 +773,7 @@ func sampleOf(c *Case) any {
 	return s
 }
 
-const ruleText = "requests = grammar-aware mutations of valid requests (plus raw bytes) built for every endpoint of (a) the testpb services registered with their generated Register*Server functions, (b) the standard harness service, (c) generated rule sets (multi-segment ** variables, typed variables, nested fields, variables / body / response_body selectors on scalar, repeated, map and message fields, websocket rules with and without body) and hand-written hostile sets; mutations cover paths (near misses, token soup, 63/64/65 tokens, invalid UTF-8, huge segments), query keys walking the schema, header tables, header-value grammar (valid media-range / coding / token lists with every separator, control and non-ASCII byte, comments, quoted strings, unbalanced quotes and empty elements inserted at every lexical gap: random edits everywhere plus an exhaustive sweep over succeeding, handler-failing and route-failing requests of every entry), bodies (JSON junk, deep JSON, invalid protobuf, varint prefixes of 1-11 bytes, broken gzip, gRPC frames with lying length / flag fields, 0-4-byte messages, broken base64, hostile WebSocket frames) and the status the handler returns (any code incl. 17 and out-of-range, hostile messages, details, headers, trailers). Entries: http, grpc (ProtoMajor 2), grpc-web, grpc-web-text, WebSocket upgrade on a plain recorder, on a hijackable in-memory connection and on a real listener, HTTP/1 and h2c on a real listener (server built by larking.NewServer); every mask of {unary interceptor, stream interceptor, stats handler} plus small limits and an extra codec. Further lanes: muxes in other life-cycle states (brand new, only registration rejected, only connection dropped) receiving valid and hostile requests of every entry under all 8 masks; on the WebSocket path a sweep of lengths 1..200 of everything that ends up in an error message (handler message in 1..4-byte runes, unknown JSON field name, echoed path variable / message field), every upgraded exchange having to end with well-formed frames and a well-formed close frame; bursts of 16 goroutines serving gzip-compressed requests concurrently on one mux (pooled state), and the standard service proxied to a real grpc-go back-end through RegisterConn. Oracle: recover(), 20 s watchdog with goroutine dump, valid HTTP status, 'panic serving' in the server log, handlers' receive counter against the request size. distinct = (entry, target kind, option mask, first two mutation classes, outcome class)"
+const ruleText = "requests = grammar-aware mutations of valid requests (plus raw bytes) built for every endpoint of (a) the testpb services registered with their generated Register*Server functions, (b) the standard harness service, (c) generated rule sets (multi-segment ** variables, typed variables, nested fields, variables / body / response_body selectors on scalar, repeated, map and message fields, websocket rules with and without body) and hand-written hostile sets; mutations cover paths (near misses, token soup, 63/64/65 tokens, invalid UTF-8, huge segments), query keys walking the schema, header tables, header-value grammar (valid media-range / coding / token lists with every separator, control and non-ASCII byte, comments, quoted strings, unbalanced quotes and empty elements inserted at every lexical gap: random edits everywhere plus an exhaustive sweep over succeeding, handler-failing and route-failing requests of every entry), bodies (JSON junk, deep JSON, invalid protobuf, varint prefixes of 1-11 bytes, broken gzip, gRPC frames with lying length / flag fields, 0-4-byte messages, broken base64, hostile WebSocket frames) and the status the handler returns (any code incl. 17 and out-of-range, hostile messages, details, headers, trailers). Entries: http, grpc (ProtoMajor 2), grpc-web, grpc-web-text, WebSocket upgrade on a plain recorder, on a hijackable in-memory connection and on a real listener, HTTP/1 and h2c on a real listener (server built by larking.NewServer); every mask of {unary interceptor, stream interceptor, stats handler} plus small limits and an extra codec. Further lanes: muxes in other life-cycle states (brand new, only registration rejected, only connection dropped) receiving valid and hostile requests of every entry under all 8 masks; on the WebSocket path a sweep of lengths 1..200 of everything that ends up in an error message (handler message in 1..4-byte runes, unknown JSON field name, echoed path variable / message field), every upgraded exchange having to end with well-formed frames and a well-formed close frame; clients that keep their sending side open (gRPC / gRPC-web client-streaming calls whose body blocks until the server closes it, with handlers that return without reading, after one message, or while a Recv is pending in another goroutine, local and proxied; WebSocket clients that send exactly the request of a unary / server-streaming method and then only read): the call must still end; bursts of 16 goroutines serving gzip-compressed requests concurrently on one mux (pooled state), and the standard service proxied to a real grpc-go back-end through RegisterConn. Oracle: recover(), 20 s watchdog with goroutine dump, valid HTTP status, 'panic serving' in the server log, handlers' receive counter against the request size. distinct = (entry, target kind, option mask, first two mutation classes, outcome class)"
 
 // RunC09 is the robustness check.
 func RunC09(r *mon.Run) {
@@ -750,6 +802,9 @@ func RunC09(r *mon.Run) {
 	wg.Wait()
 	if phase == "" || phase == "inproc" || phase == "sweep" {
 		runHeaderSweep(r)
+	}
+	if phase == "" || phase == "inproc" || phase == "hold" {
+		runHoldLane(r)
 	}
 	if phase == "" || phase == "inproc" || phase == "life" {
 		runLifecycle(r)
